@@ -149,4 +149,73 @@ CHECKS = {
                                           "damage:truncate-at-block-boundary", "damage:extend-inside-last-block", "damage:extend-file-of-exact-block-multiple", "damage:delete"]},
         "stages": [rapid("safekeeper", "TestProp", 2400, 64000, qs=8, ts=16, qt=600, tt=5400)],
     },
+    "C08": {
+        "title": "Data already present in the old build is not sent again",
+        "level": "exploration",
+        "technique": "rapid property-based testing with metamorphic byte bounds on the decoded patch (identical / renamed / k-edit builds on unique high-entropy content)",
+        "level_text": ("Three generated families on unique high-entropy content (one stream per file, no accidental reuse): identical builds; "
+                       "renames/duplicates; one file with k in 0..4 recorded edits (overwrite/insert/delete, offsets biased to first/last block "
+                       "and block edges, sizes up to 80 blocks so the 4MiB window wraps). Oracles from the decoded patch and DiffContext: "
+                       "FreshBytes+ReusedBytes == new size; FreshBytes == sum of DATA bytes; equal-content file => 0 fresh bytes; edited file => "
+                       "fresh <= introduced + (2k+2)*64KiB (the bound the property states)."),
+        "level_note": "the bound is the one stated in the property; overlapping edits are dropped by the generator (they would only loosen it).",
+        "rule": ("rapid draws (family, files with sizes, copies/renames, edits). Non-trivial: an edited file of >= 8 blocks with >= 1 "
+                 "length-changing edit (where a de-synchronised rolling hash would blow the bound); for the identical/rename families a "
+                 "multi-block file that is kept, renamed or duplicated. Distinct: SHA-1 of the spec."),
+        "assumptions": ["high-entropy streams do not collide on 64KiB blocks by chance"],
+        "required_classes": {"quick": ["family:identical", "family:renames", "edits:length-changing", "edits:k=3"],
+                             "thorough": ["family:identical", "family:renames", "edits:length-changing", "edits:k=4", "edited-file:>4MiB"]},
+        "stages": [rapid("freshbytes", "TestProp", 1200, 32000, qs=8, ts=16, qt=600, tt=5400)],
+    },
+    "C04": {
+        "title": "A build validates against its own signature, however that was produced",
+        "level": "exploration",
+        "technique": "rapid property-based testing: differential (diff-time vs stand-alone signature) plus a reference hash model, then validation of the pristine build",
+        "level_text": ("Generated builds with a size sweep (block-boundary classes, >4MiB, many small files, empty-only trees, symlinks, empty "
+                       "dirs) x signature compression x old build (empty, identical, unrelated). The signature written at diff time is read back "
+                       "and compared with the walked container (proto.Equal), with ComputeSignature element-wise, and with a reference model "
+                       "(own weak hash + crypto/md5 per 64KiB slice, one hash for an empty file, short last block). Validation of the pristine "
+                       "build: wounds-file mode nil / no file / no wounds; AssertValid nil."),
+        "level_note": "trusted: crypto/md5, the reference weak hash written from the format description.",
+        "rule": ("rapid draws (new tree, old-build kind, compression). Non-trivial: a file with >=2 blocks and a short tail, or an empty file "
+                 "beside a non-empty one. Distinct: SHA-1 of the spec."),
+        "assumptions": [],
+        "required_classes": {"quick": ["file:exact-block-multiple", "tree:empty-file-beside-non-empty", "comp:gzip", "comp:brotli", "tree:no-files"],
+                             "thorough": ["file:exact-block-multiple", "tree:empty-file-beside-non-empty", "comp:gzip", "comp:brotli", "tree:no-files", "tree:symlinks"]},
+        "stages": [rapid("signature", "TestProp", 1600, 48000, qs=8, ts=16, qt=600, tt=5400)],
+    },
+    "C05": {
+        "title": "Validation reports every deviation from the signed build and locates it",
+        "level": "exploration",
+        "technique": "rapid property-based testing with generated fault sequences; expected deviations observed independently through the OS and compared with the parsed wounds file and the fail-fast verdict",
+        "level_text": ("Generated builds + 0-4 damages (bit flips at first/last byte of a block or of the file, truncation/extension around block "
+                       "boundaries, emptied/deleted entries, content in an expected-empty file, kind swaps incl. subtree-hiding ones, retargeted "
+                       "symlinks). An independent observer (Lstat/ReadFile per signed entry) lists deviations. Oracles, both directions: deviating => "
+                       "error or >=1 wound + HasWounds, every differing block offset inside a FILE wound of that index, shorter/longer/missing files "
+                       "and deviating dirs/symlinks named by a wound, every wound well-formed (known kind, index in range, 0<=start<=end); "
+                       "identical => nil, no wounds; fail-fast errs iff deviating."),
+        "level_note": "differing offsets are checked at the first and last differing byte of every 64KiB block; what 'deviates' means is what the OS shows at the signed paths.",
+        "rule": ("rapid draws (tree, damage sequence). Non-trivial: a deviating directory whose damage includes a flip at a block-boundary class or "
+                 "a length change crossing a block boundary. Distinct: SHA-1 of the spec."),
+        "assumptions": [],
+        "required_classes": {"quick": ["dir:identical", "dir:deviates", "damage:hides-subtree", "damage:length-change-crossing-block-boundary", "damage:flip-at-block-boundary-class"],
+                             "thorough": ["dir:identical", "dir:deviates", "damage:hides-subtree", "damage:length-change-crossing-block-boundary", "damage:flip-at-block-boundary-class", "damage:retarget"]},
+        "stages": [rapid("wounds", "TestProp", 3200, 96000, qs=8, ts=16, qt=600, tt=5400)],
+    },
+    "C06": {
+        "title": "Healing from an archive restores any damaged directory to the signed build",
+        "level": "exploration",
+        "technique": "rapid property-based testing with generated fault sequences and schedule perturbation (GOMAXPROCS, consumer-callback jitter, repetition); independent post-heal observer",
+        "level_text": ("C05's damage generator plus 'directory empty' and 'directory missing'; archive = archiver.CompressZip of the pristine build. "
+                       "Validate{HealPath} must return nil within the watchdog; afterwards an independent observer must find every signed entry with "
+                       "the right kind/bytes/destination (extras allowed) and AssertValid must pass. An already valid directory must be untouched "
+                       "(strong snapshot) and TotalHealed()==0. GOMAXPROCS in {1,2,4,16}, sleeps/yields injected through the Consumer callbacks, 2 repetitions."),
+        "level_note": "interleavings of validator, wound channel and healer are sampled, not enumerated.",
+        "rule": ("rapid draws (tree, damage sequence, GOMAXPROCS, jitter bytes). Non-trivial: >=1 file healed and >=1 directory or symlink wound. "
+                 "Distinct: SHA-1 of the spec."),
+        "assumptions": ["the healing archive is the zip of the pristine build, as in wharf's scenario tests"],
+        "required_classes": {"quick": ["dir:already-valid", "dir:healed", "damage:hides-subtree", "damage:kind-swap:d->link", "damage:kind-swap:d->file"],
+                             "thorough": ["dir:already-valid", "dir:healed", "damage:hides-subtree", "damage:kind-swap:d->link", "damage:kind-swap:d->file", "damage:whole-directory-delete", "damage:whole-directory-empty"]},
+        "stages": [rapid("heal", "TestProp", 960, 32000, qs=16, ts=16, qt=600, tt=5400, schedule_dependent=True)],
+    },
 }
